@@ -15,7 +15,7 @@
 //! sets, plus messages with maximal RDATA; (3) an offset sweep: 7 name-reuse
 //! patterns, one message per offset placing the first occurrence of the reused
 //! name at every offset of stated windows around 16384, 32768, 49152 and below
-//! 65535; (4) every input of C03's corpus that the reference decoder accepts
+//! 65535; (4) every input of C03's corpus that the implementation decodes
 //! is re-encoded and must decode to the same message again.
 
 use crate::c03;
@@ -1127,7 +1127,10 @@ pub fn run(ctx: &Ctx) -> i32 {
             c03::for_each_input_opt(space, tier, item, false, &mut |b, _| {
                 acc.corpus_inputs += 1;
                 k += 1;
-                if let Ok(m) = refwire::decode(b) {
+                // the clause ranges over what the *implementation* decodes
+                // (C03 decides whether it should have)
+                let decoded = std::panic::catch_unwind(std::panic::AssertUnwindSafe(|| Message::from_octets(b)));
+                if let Ok(Ok(m)) = decoded {
                     // consecutive inputs often decode to the same message
                     if last.as_ref() == Some(&m) {
                         same += 1;
@@ -1185,7 +1188,7 @@ pub fn run(ctx: &Ctx) -> i32 {
             "messages": n_sweep,
         },
         "reencode": {
-            "corpus": "every input of C03's spaces (same tier; truncated inputs left out) that the reference decoder accepts",
+            "corpus": "every input of C03's spaces (same tier; truncated inputs left out) that the implementation decodes",
             "inputs_walked": total.corpus_inputs,
         },
         "messages_over_65535_octets_skipped": total.skipped_oversize,
